@@ -48,6 +48,14 @@ class PostgreSQLQueryBuilder(QueryBuilder):
         newone._on_conflict_do_updates = copy(self._on_conflict_do_updates)
         return newone
 
+    def replace_table(self, current_table, new_table):  # type:ignore[no-untyped-def,override]
+        query = super().replace_table(current_table, new_table)
+        query._returns = [term.replace_table(current_table, new_table) for term in query._returns]
+        query._distinct_on = [
+            term.replace_table(current_table, new_table) for term in query._distinct_on
+        ]
+        return query
+
     @builder
     def distinct_on(self, *fields: str | Term) -> "PostgreSQLQueryBuilder":  # type:ignore[return]
         for field in fields:
